@@ -362,6 +362,16 @@ pub fn build(c: &Case) -> Built {
 /// Build the font of a case with a non-canonical (but legal) container layout: same glyph
 /// programs, subroutines and models as `build(c)`, different bytes around them.
 pub fn build_with(c: &Case, layout: &CffLayout) -> Built {
+    build_full(c, layout, None)
+}
+
+/// `build(c)` with the charset of a name-keyed font replaced by `charset` (SIDs of glyphs 1..n; every
+/// other byte of the font is the same). Used by C09 for charsets that start in ISOAdobe order.
+pub fn build_with_charset(c: &Case, charset: CharsetModel) -> Built {
+    build_full(c, &CffLayout::default(), Some(charset))
+}
+
+fn build_full(c: &Case, layout: &CffLayout, name_keyed_charset: Option<CharsetModel>) -> Built {
     let mut dec = Dec::new(c.seed);
     let grid = grid_of(c);
     let cff2 = c.kind == Kind::Cff2;
@@ -613,10 +623,13 @@ pub fn build_with(c: &Case, layout: &CffLayout) -> Built {
             strings: Vec::new(),
             global_subrs,
             charstrings,
-            charset: match dec.below(3) {
-                0 => CharsetModel::IsoAdobe,
-                1 => CharsetModel::Format0((1..nglyphs as u16).collect()),
-                _ => CharsetModel::Format1((1..nglyphs as u16).collect()),
+            charset: {
+                let drawn = match dec.below(3) {
+                    0 => CharsetModel::IsoAdobe,
+                    1 => CharsetModel::Format0((1..nglyphs as u16).collect()),
+                    _ => CharsetModel::Format1((1..nglyphs as u16).collect()),
+                };
+                name_keyed_charset.unwrap_or(drawn)
             },
             kind: CffKind::NameKeyed { private: privates.remove(0) },
             header_extra: c.header_extra,
